@@ -469,6 +469,58 @@ def gen_rename_classes(rng, tier):
         yield {"style": rng.choice(STYLES), "classes": [_cls(rng, names, nss, locs) for _ in range(k)]}
 
 
+E2E_NAMES = [
+    "a", "A", "a_", "_a", "a-b", "a.b", "aB", "AB", "class", "Class", "None", "await", "type", "value", "value_1", "_1",
+    "a名", "a_Attribute", "a_Element", "class_value", "a1", "a_1", "x-1", "x_1", "x1", "Any", "a⁰", "a_attribute", "self",
+    "Value", "_value", "def", "a__1", "A1", "b",
+]
+E2E_ENUMS = ["1", "value_1", "a", "A", "-1", "1.0", "a b", "a-b", "class", "None", "await", "VALUE_1", "value-1", "1a", "a_1",
+             "a1", "A_1", "2", "value_2", "x", "X", " x", "-.5"]
+
+
+def gen_e2e_fields(rng, tier):
+    def el(n):
+        return {"tag": "Element", "name": n, "ns": None}
+
+    def at(n):
+        return {"tag": "Attribute", "name": n, "ns": None}
+
+    def en(n):
+        return {"tag": "Enumeration", "name": n, "ns": None}
+
+    yield {"attrs": [el("a"), el("a_Attribute"), at("a")]}
+    yield {"attrs": [el("class"), el("class_value"), el("await")]}
+    yield {"attrs": [en("1"), en("value_1"), en("a"), en("A")]}
+    for _ in range(220 if tier == "quick" else 5000):
+        if rng.random() < 0.7:
+            pool = rng.sample(E2E_NAMES, 6) if rng.random() < 0.6 else E2E_NAMES
+            els = list(dict.fromkeys(rng.choice(pool) for _ in range(rng.randint(0, 4))))
+            ats = list(dict.fromkeys(rng.choice(pool) for _ in range(rng.randint(0, 3))))
+            if els or ats:
+                yield {"attrs": [el(n) for n in els] + [at(n) for n in ats]}
+        else:
+            vals = list(dict.fromkeys(rng.choice(E2E_ENUMS) for _ in range(rng.randint(1, 5))))
+            yield {"attrs": [en(v) for v in vals]}
+
+
+def impl_e2e_fields(a):
+    """The real pipeline (parser, mappers, every handler of the container, generator
+    package normalisation, Filters) on a schema with one complexType / one enumeration."""
+    attrs = a["attrs"]
+    if attrs and attrs[0]["tag"] == "Enumeration":
+        spec = {"types": [], "elements": [], "enums": [{"name": "t", "values": [x["name"] for x in attrs]}], "tns": None}
+    else:
+        spec = {"types": [{"name": "t", "elements": [x["name"] for x in attrs if x["tag"] == "Element"],
+                           "attributes": [x["name"] for x in attrs if x["tag"] == "Attribute"], "abstract": False}],
+                "elements": [], "enums": [], "tns": None}
+
+    def run():
+        res = run_pipeline({"kind": "xsd", "spec": spec, "opts": {}})
+        return [r for r in res if r["qname"] == "t"][0]["fields"]
+
+    return _guard(run)
+
+
 def classify_safe(a, out):
     if "err" in out:
         return "err:" + out["err"]
@@ -508,6 +560,9 @@ CORRS = [
     Corr("names.unique_name", gen_unique_name, impl_unique_name),
     Corr("names.next_qname", gen_next_qname, impl_next_qname),
     Corr("names.next_available_name", gen_next_available_name, impl_next_available_name),
+    Corr("names.e2e_fields", gen_e2e_fields, impl_e2e_fields, nontrivial=lambda a, o: len(a["attrs"]) > 1,
+         describe="whole real pipeline on one complexType / enumeration vs model(rename_duplicate_attributes ∘ field/constant_name)",
+         classify=lambda a, o: ("enum" if a["attrs"][0]["tag"] == "Enumeration" else "complexType") + (":err" if "err" in o else "")),
     Corr("names.rename_classes", gen_rename_classes, impl_rename_classes, nontrivial=lambda a, o: len(a["classes"]) > 1,
          describe="RenameDuplicateClasses.run (renames only)",
          classify=lambda a, o: "renamed" if o.get("ok") != [c["qname"] for c in a["classes"]] else "unchanged"),
@@ -1162,6 +1217,18 @@ def gen_pipeline(rng, tier):
             yield {"kind": "xml", "doc": f"<{pool[0]}{attr}>{body}</{pool[0]}>", "opts": opts}
 
 
+def adapt_pipeline(op, a):
+    """names.e2e_fields case -> the same schema for the end-to-end oracle"""
+    attrs = a["attrs"]
+    if attrs and attrs[0]["tag"] == "Enumeration":
+        spec = {"types": [], "elements": [], "enums": [{"name": "t", "values": [x["name"] for x in attrs]}], "tns": None}
+    else:
+        spec = {"types": [{"name": "t", "elements": [x["name"] for x in attrs if x["tag"] == "Element"],
+                           "attributes": [x["name"] for x in attrs if x["tag"] == "Attribute"], "abstract": False}],
+                "elements": [], "enums": [], "tns": None}
+    return {"kind": "xsd", "spec": spec, "opts": {}}
+
+
 def adapt_ident(op, a):
     if op == "names.filter":
         return a
@@ -1172,10 +1239,10 @@ def adapt_ident(op, a):
 
 ORACLES = [
     Oracle("c07.ident", gen_oracle_ident, oracle_ident, covered_ident, from_ops=("names.filter", "names.safe_name"), adapt=adapt_ident),
-    Oracle("c07.fields", gen_oracle_fields, oracle_fields, covered_fields, from_ops=("names.rename_attrs",)),
+    Oracle("c07.fields", gen_oracle_fields, oracle_fields, covered_fields, from_ops=("names.rename_attrs", "names.e2e_fields")),
     Oracle("c07.classes", gen_oracle_classes, oracle_classes, covered_classes, from_ops=("names.rename_classes",)),
     Oracle("c07.fresh", gen_oracle_fresh, oracle_fresh, from_ops=("names.unique_name", "names.next_qname", "names.next_available_name"), adapt=adapt_fresh),
-    Oracle("c07.pipeline", gen_pipeline, oracle_pipeline, covered_pipeline),
+    Oracle("c07.pipeline", gen_pipeline, oracle_pipeline, covered_pipeline, from_ops=("names.e2e_fields",), adapt=adapt_pipeline),
 ]
 
 # ----------------------------------------------------------------- findings
